@@ -112,6 +112,7 @@ structure Server where
   pickSeed : Nat := 0                       -- which member of each share group is selected
   orderSeed : Nat := 0                      -- order in which the share groups are visited
   nextSeed : Nat := 0                       -- which deferred message `processPacket` releases next
+  parked : List Nat := []                   -- objects whose handler is parked at `attach.beforeCleanup`
 deriving Repr
 
 /-- a packet the broker writes, structurally (rendered to the harness's projection by `WPk.render`) -/
@@ -701,13 +702,17 @@ def receivePacket (s : Server) (i : Nat) (pk : InPk) : HRes :=
       (s, o ++ o2, some code)
     else (s, o, some code)
 
-/-- the tail of `attachClient` after the read loop ended (`err`: with an error or normally) -/
-def detach (s : Server) (i : Nat) (withErr : Bool) : Server × List Out :=
-  let (s, o1) := if withErr then
-      let (s, o) := sendLWT s i
-      let (s, o') := stopClient s i
-      (s, o ++ o')
-    else (modObj s i (fun c => { c with will := {} }), [])
+/-- the tail of `attachClient` after the read loop ended (`err`: with an error or normally), up to
+    the point where the session clean-up starts (yield point `attach.beforeCleanup`) -/
+def detachA (s : Server) (i : Nat) (withErr : Bool) : Server × List Out :=
+  if withErr then
+    let (s, o) := sendLWT s i
+    let (s, o') := stopClient s i
+    (s, o ++ o')
+  else (modObj s i (fun c => { c with will := {} }), [])
+
+/-- the session clean-up at the end of `attachClient` and the deferred counter decrement -/
+def detachB (s : Server) (i : Nat) : Server :=
   let c := getObj s i
   let expire := (c.ver == 5 && c.sei == 0) || (c.ver < 5 && c.clean)
   let s := if expire && !c.takenOver then
@@ -715,7 +720,12 @@ def detach (s : Server) (i : Nat) (withErr : Bool) : Server × List Out :=
       let s := unsubscribeClient s i
       { s with clients := assocDel s.clients c.id }
     else s
-  ({ s with info := { s.info with connected := s.info.connected - 1 } }, o1)
+  { s with info := { s.info with connected := s.info.connected - 1 } }
+
+/-- the tail of `attachClient` after the read loop ended (`err`: with an error or normally) -/
+def detach (s : Server) (i : Nat) (withErr : Bool) : Server × List Out :=
+  let (s, o1) := detachA s i withErr
+  (detachB s i, o1)
 
 /-- deliver one inbound packet on connection `conn`, then (if the connection survived) the
     harness's PINGREQ barrier -/
@@ -923,6 +933,8 @@ inductive Op where
   | connect (conn : Nat) (k : Connect)
   | recv (conn : Nat) (pk : InPk)
   | drop (conn : Nat)
+  | dropHold (conn : Nat)   -- the connection is lost; its handler is parked before the session clean-up
+  | release (conn : Nat)    -- the parked handler runs the clean-up
   | tick (kind : String) (t : Int)
   | inlinePublish (topic payload : Str) (retain : Bool) (qos : Nat)
   | inlineSubscribe (id : Nat) (filter : Str)
@@ -957,6 +969,19 @@ def step (s : Server) : Op → Server × List Out
       let s := modObj s i (fun c => { c with peerGone := true })
       let (s, o) := detach s i true
       (s, o.filter (fun x => match x with | .closed c => c != conn | _ => true))
+  | .dropHold conn =>
+    match assocGet s.connOf conn with
+    | none => (s, [])
+    | some i =>
+      if (getObj s i).stopped then (s, []) else
+      let s := modObj s i (fun c => { c with peerGone := true })
+      let (s, o) := detachA s i true
+      ({ s with parked := s.parked ++ [i] }, o.filter (fun x => match x with | .closed c => c != conn | _ => true))
+  | .release conn =>
+    match assocGet s.connOf conn with
+    | none => (s, [])
+    | some i =>
+      if s.parked.contains i then (detachB { s with parked := s.parked.filter (· != i) } i, []) else (s, [])
   | .tick kind t =>
     if kind == "clients" then tickClients s t
     else if kind == "retained" then (tickRetained s t, [])
